@@ -413,5 +413,40 @@ def t1_typestate(chk):
     compile_ts.ts_rule(chk, 'C08.T1', ['fetch-once', 'closure', 'accounted'])
 
 
+
+def r7_every_component_is_asked(chk, rule='C08.R7', meths=('getData',), attrs=None):
+    """A component loop of compile() (`for x in self._sources / _searchers / _borrowers`) asks every component it
+    visits: no path from the loop head through the body back to the loop head avoids the protocol call on the loop
+    variable.  (A `continue` placed before the call - a skip list, a cache of components that failed earlier - changes
+    which source / searcher / borrower answers.)"""
+    r = cr.infer(chk.model)
+    cfg = r.cfg
+    chk.doc(rule, 'each iteration of a component loop in compile() calls the component (%s) before it can reach the '
+                  'next iteration: components are consulted strictly in the order they were added, none is passed '
+                  'over' % '/'.join(meths))
+    n = 0
+    for loop in [x for x in walk_no_nested(r.fn) if isinstance(x, ast.For)]:
+        attr = cr.loop_over_self_attr(r.fn, loop.target.id) if isinstance(loop.target, ast.Name) else None
+        if not (isinstance(loop.iter, ast.Attribute) and isinstance(loop.iter.value, ast.Name) and
+                loop.iter.value.id == 'self') or attr is None:
+            continue
+        calls = [c for c in walk_no_nested(loop) if isinstance(c, ast.Call) and isinstance(c.func, ast.Attribute) and
+                 c.func.attr in meths and isinstance(c.func.value, ast.Name) and c.func.value.id == loop.target.id]
+        if not calls:
+            continue
+        if attrs is not None and loop.iter.attr not in attrs:
+            continue
+        n += 1
+        head = cfg.by_ast[id(loop)]
+        call_nodes = set(cfg.node_of(cr.stmt_of(c, r.fn)) for c in calls)
+        body_entry = [m for m, l in head.succ if l == 'T']
+        reach = cfg.reach(body_entry, avoid=call_nodes)
+        back = [p for p, l in head.pred if p in reach and in_subtree(p.ast, loop) and p is not head]
+        chk.ob(rule, 'compile/for %s in self.%s asks every one' % (loop.target.id, loop.iter.attr), not back,
+               where(r.mod, loop), 'an iteration can go on to the next %s without calling %s on this one (from line(s) %s)'
+               % (loop.target.id, '/'.join(meths), sorted(set(p.lineno for p in back if p.lineno))))
+    chk.floor(rule, 1, 'component loops of compile()')
+
+
 RULES = [r1_worklist_growth, r2_seen_set, r3_ordering, r4_first_hit, r5_no_mutation_while_iterating,
-         r6_argument_agreement, t1_typestate]
+         r6_argument_agreement, t1_typestate, r7_every_component_is_asked]
